@@ -271,6 +271,9 @@ def gen_case(rng, pid, tier):
             pr[3] = [max(1, d - rng.choice([0, 1, 2, 4])) for d in t[3]]
             pr[4], pr[5], pr[7], pr[10], pr[11] = t[4], t[5], t[7], t[10], t[11]
             pr[8] = None
+        elif rng.random() < 0.25:
+            # a probe that asks for nothing in one dimension (its allocation may reserve nothing there either)
+            case['probe'][3][rng.randrange(3)] = 0
     return case
 
 
@@ -489,6 +492,22 @@ def monitors(world, pid, snap, queues, run, hist_tags):
         for an, a in cell.apps.items():
             if a.server and (a.server not in members or an not in members[a.server].apps):
                 H('views-disagree', 'cycle', (an, a.server))
+    elif pid == 'C02':
+        # second sentence of the property, on every state a cycle leaves: what a bucket aggregates over the
+        # servers below it (partition labels, traits, free capacity - the three things Bucket-level
+        # check_app_constraints reads) never hides an up server
+        for sn, s in members.items():
+            if s.state is not sch.State.up:
+                continue
+            b = s.parent
+            while b is not None:
+                if not set(s.labels) <= set(b.labels):
+                    H('aggregate-hides-server', 'labels', (sn, b.name, sorted(map(str, s.labels)), sorted(map(str, b.labels))))
+                if not b.traits.has(s.traits.traits):
+                    H('aggregate-hides-server', 'traits', (sn, b.name, s.traits.traits, b.traits.traits))
+                if any(s.free_capacity > b.free_capacity):
+                    H('aggregate-hides-server', 'capacity', (sn, b.name, list(s.free_capacity), list(b.free_capacity)))
+                b = b.parent
     elif pid == 'C03':
         owners = _owner_allocs(world)
         spec_lease = getattr(world, 'spec_lease', {})
@@ -1011,7 +1030,10 @@ def _run(case, pid, run, w, stats):
         g = probe.identity_group_ref
         ident_free = g is None or len(g.available) > 0
         _cycle(w, run, pid, stats)
-        over_cap = any(aid == op[1] and up for q in w.queues for aid, up in q)
+        # "beyond its allocation's utilisation cap" is only an excuse when the probe's allocation declares a cap
+        # (the flag is the code's own ranking: a defect that ranks a fitting instance as unplaceable must not hide itself)
+        capped = any(a[0] == op[11] and a[6] is not None for a in case['allocs'])
+        over_cap = capped and any(aid == op[1] and up for q in w.queues for aid, up in q)
         if len(fits) == 1:
             stats['probe-boundary'] += 1
         run.tags.add('probe-fits' if fits else 'probe-nofit')
